@@ -17,6 +17,9 @@ def step (_ : Unit) (ws : List String) : Unit × String :=
   | ["restart", _] => ((), "restarted ready applied=* next=*")
   | ["crash", _] => ((), "restarted ready applied=* next=*")
   | ["dump"] => ((), "dump L=* F=* R=*")
+  | ["dumpn"] => ((), "dumpn behind=* L=* N=*")
+  | ["install", _, _] => ((), "install *")
+  | ["catchup", _] => ((), "catchup ok")
   | _ => ((), "bad-op")
 
 structure SpecSt where
@@ -49,6 +52,18 @@ def specStep (s : SpecSt) (ws : List String) : SpecSt × String :=
       (s0, if ans.head? == some "restarted" then "spec ok" else "spec FAIL the node does not restart from its data directory")
     | ["compact", _] => (s0, if ans == ["compact", "ok"] then "spec ok" else "spec FAIL log compaction fails")
     | "flush" :: _ => ({ s0 with queued := 0 }, "-")
+    | ["install", _, _] =>
+      -- "nosnapshot": the leader has not compacted yet, nothing to install (not a failure of the node)
+      -- "notbehind": the joiner's log already extends beyond the leader's snapshot (outside the property's quantifier)
+      (s0, if ans == ["install", "ok"] || ans == ["install", "nosnapshot"] || ans == ["install", "notbehind"] then "spec ok" else "spec FAIL the snapshot cannot be installed")
+    | ["catchup", _] => (s0, if ans == ["catchup", "ok"] then "spec ok" else "spec FAIL the entries after the snapshot are not accepted")
+    | ["dumpn"] =>
+      -- the late joiner after installation (+ restart): the served state without the log bookkeeping
+      let strip (d : String) : String := ";".intercalate ((d.splitOn ";").filter fun p => !p.startsWith "la=" && !p.startsWith "ll=")
+      let l := strip (field ans "L"); let nn := strip (field ans "N")
+      if field ans "behind" != "0" then (s0, "-")      -- the joiner has not been sent everything yet: nothing to compare
+      else if l == nn then (s0, "spec ok")
+      else (s0, "spec FAIL the node caught up by snapshot installation does not serve the leader's data (C08)")
     | ["dump"] =>
       let l := served (field ans "L"); let f := served (field ans "F"); let r := served (field ans "R")
       if l == "" || l.startsWith "dead" || l.startsWith "down" then (s0, "spec FAIL no dump")
